@@ -29,6 +29,9 @@
 #include <fcntl.h>
 #include <signal.h>
 #include <sys/mman.h>
+#ifdef VF_FENV_ROTATE
+#include <fenv.h>
+#endif
 #include <time.h>
 
 /* ------------------------------------------------------------------ PRNG */
@@ -469,6 +472,17 @@ int main(int argc, char **argv)
         vf.jr->truncated = 0;
         vf.jr->text[0] = 0;
         vf.jr->case_no = c;
+#ifdef VF_FENV_ROTATE
+        /* configuration "fenv": the caller's floating-point rounding mode is part of the execution environment and is never varied by an
+         * ordinary test run; routines whose results are integers, bytes or links must not depend on it (seeded change C19-J: a square root
+         * started from (a_u64)sqrt((double)x), exact under round-to-nearest, one too small under FE_DOWNWARD / FE_TOWARDZERO) */
+        {
+            static int const vf_modes[4] = {FE_DOWNWARD, FE_TOWARDZERO, FE_UPWARD, FE_TONEAREST};
+            unsigned const m = (unsigned)(vf_hash64(vf.seed * 0x9E3779B97F4A7C15ULL + 0xfe, c) >> 40) & 3; /* a pure function of (seed, case): replays agree */
+            fesetround(vf_modes[m]);
+            vf_count_dyn("cases-run-under-a-directed-rounding-mode", m != 3);
+        }
+#endif
         if (case_timeout) { alarm(case_timeout); }
         if (vf.explain) { fprintf(stderr, "=== %s case %" PRIu64 " seed %" PRIu64 " config %s\n", VF_PROP, c, vf.seed, vf.config); }
         vf_case(c, &r);
